@@ -9,6 +9,7 @@
      response (View = "client": the octets are parsed as a client would)
        [kind |-> "resp", rmethod, rver, rconn        the request being answered
         style |-> "reply" | "error" | "chunked", code, reason, hdrs, body, chunks,
+        dct   |-> default Content-Type configured on the server: <<"lib">> | <<"null">> | <<"set", value>>,
         rc    |-> return codes of evhttp_add_header (one per hdrs entry),
         raw   |-> octets the peer received, closed |-> peer saw the connection close]
      request (View = "server")
@@ -58,7 +59,12 @@ Cat(q) == IF Len(q) = 0 THEN "" ELSE q[1] \o Cat(Tail(q))
 RespBody(e) == IF ~NeedBody(e) THEN "" ELSE IF e.style = "chunked" THEN Cat(e.chunks) ELSE e.body
 
 (* header fields of the response: the caller's (accepted) fields plus the automatic ones *)
-RespHdrs(e, H0) ==
+(* the default Content-Type is a caller input too (evhttp_set_default_content_type): dct = <<"lib">> (untouched),
+   <<"null">> (switched off) or <<"set", value>>; a value that could inject is dropped (the setter cannot refuse) *)
+DefaultCTOf(e, raw) == IF e.dct[1] = "lib" THEN <<DefaultCT>> ELSE IF e.dct[1] = "null" THEN <<>>
+                       ELSE IF raw \/ ValueOK(e.dct[2]) THEN <<e.dct[2]>> ELSE <<>>
+DctBad(e) == e.dct[1] = "set" /\ ~ValueOK(e.dct[2])
+RespHdrsX(e, H0, raw) ==
   LET H1 == IF e.style = "error" THEN <<<<"Content-Type", "text/html">>, <<"Connection", "close">>>> ELSE H0
       chunkedTE == e.style = "chunked" /\ ~Find(H1, "content-length") /\ V11(e) /\ NeedBody(e)
       H2 == IF chunkedTE THEN Append(H1, <<"Transfer-Encoding", "chunked">>) ELSE H1
@@ -67,9 +73,11 @@ RespHdrs(e, H0) ==
       clv == IF e.style = "error" THEN ANY ELSE IF e.style = "chunked" THEN "0" ELSE ToString(Len(e.body))
       H5 == IF (V11(e) \/ KeepAlive(e)) /\ NeedBody(e) /\ ~Find(H4, "transfer-encoding") /\ ~Find(H4, "content-length")
             THEN Append(H4, <<"Content-Length", clv>>) ELSE H4
-      H6 == IF NeedBody(e) /\ ~Find(H5, "content-type") THEN Append(H5, <<"Content-Type", DefaultCT>>) ELSE H5
+      ct == DefaultCTOf(e, raw)
+      H6 == IF NeedBody(e) /\ ~Find(H5, "content-type") /\ ct # <<>> THEN Append(H5, <<"Content-Type", ct[1]>>) ELSE H5
   IN IF Low(e.rconn) = "close" THEN Append(RemoveFirst(H6, "connection"), <<"Connection", "close">>) ELSE H6
 
+RespHdrs(e, H0) == RespHdrsX(e, H0, FALSE)
 RespCloses(e) == e.style = "error" \/ Low(e.rconn) = "close" \/ (~V11(e) /\ ~KeepAlive(e))
 (* a streamed (start/chunk/end) reply to an HTTP/1.0 client cannot be framed on a kept-alive connection:
    nothing sensible can be expected, the case is judged on "exactly one message with this body" alone *)
@@ -145,6 +153,16 @@ InjectionIsReal(e) ==
   (~StartOK(e) \/ ((e.kind = "req" \/ e.style # "error") /\ \E i \in 1..Len(e.hdrs) : ~HdrOK(e.hdrs[i]))) =>
      ~ExactlyOne(Frame(WriteMsg(e, e.hdrs), RqOf(e), x.closes), x)
 
+(* an injecting default Content-Type written as it is would add a field: dropping it is necessary *)
+DctInjectionIsReal(e) ==
+  (e.kind = "resp" /\ DctBad(e) /\ StartOK(e) /\ ~Unframable(e) /\ e.style # "error" /\ NeedBody(e)
+   /\ ~Find(Filter(e.hdrs, AllGood(e)), "content-type")) =>
+     LET H0 == Filter(e.hdrs, AllGood(e))
+         x == ExpectedResp(e, H0)
+         rawmsg == "HTTP/" \o ToString(EffVer(e)[1]) \o "." \o ToString(EffVer(e)[2]) \o " " \o ToString(e.code) \o " " \o e.reason \o CRLF
+                   \o WriteHdrs(RespHdrsX(e, H0, TRUE)) \o CRLF \o (IF Find(x.h, "transfer-encoding") THEN WriteChunks(e.chunks) ELSE x.b)
+     IN ~ExactlyOne(Frame(rawmsg, RqOf(e), x.closes), x)
+
 (* IMPLEMENTATION: the captured octets *)
 Refusals(e) == \A i \in 1..Len(e.hdrs) : ~HdrOK(e.hdrs[i]) => e.rc[i] # 0
 ImplOK(e) ==
@@ -162,6 +180,6 @@ WNext == pos <= Len(Trace) /\ pos' = pos + 1 /\ UNCHANGED <<msgs, mode, S, ctx>>
 
 Judge == (pos <= Len(Trace) /\ Mine(Trace[pos])) =>
   LET e == Trace[pos] IN
-  PrintT(ToJson([i |-> pos, model |-> OneMessage(e) /\ InjectionIsReal(e), impl |-> ImplOK(e),
+  PrintT(ToJson([i |-> pos, model |-> OneMessage(e) /\ InjectionIsReal(e) /\ DctInjectionIsReal(e), impl |-> ImplOK(e),
                  parsed |-> AltsJ(Frame(e.raw, RqOf(e), IF e.kind = "resp" THEN e.closed ELSE FALSE))]))
 =============================================================================
